@@ -568,6 +568,85 @@ fn stream_clip(rep: &mut Report, drv: &mut Driver, rng: &mut Rng, n: usize) -> R
     Ok(())
 }
 
+/// `<use>` among the permuted siblings: a target, a `<use>` of it (possibly a `<use>` of that), elements and
+/// connectors placed relative to the instance. A `<use>` has no box of its own - it is known only through its
+/// target - yet it is a valid `#id`; every order must succeed, with the same geometry.
+fn stream_use(rep: &mut Report, drv: &mut Driver, rng: &mut Rng, n: usize) -> Result<(), String> {
+    let mut corr = Stream::new(
+        "doc/use-order",
+        "correspondence",
+        "3-6 siblings: a rect / circle / ellipse target, a <use> of it with x / y (one in three also a <use> of the <use>), 1-3 elements placed relative to the instance (direction, location, size, connector start), in a random order: implementation vs model",
+    );
+    let mut orc = Stream::new(
+        "oracle/use-permutation",
+        "oracle",
+        "the same siblings in all n! orders (at most 120): every order succeeds and every element's output attributes keyed by id are the same in every order",
+    );
+    let lim = Limits::default();
+    for _ in 0..n {
+        let h = |rng: &mut Rng, lo: i64, hi: i64| fstr_ref(rng.range(lo, hi) as f64 / 2.0);
+        let mut sib: Vec<X> = vec![];
+        match rng.below(3) {
+            0 => sib.push(X::leaf("rect", &[("id", "t"), ("xy", &format!("{} {}", h(rng, -10, 20), h(rng, -10, 20))), ("wh", &format!("{} {}", 2 * (1 + rng.below(8)), 2 * (1 + rng.below(8))))])),
+            1 => sib.push(X::leaf("circle", &[("id", "t"), ("cxy", &format!("{} {}", h(rng, -10, 20), h(rng, -10, 20))), ("r", &(2 + rng.below(6)).to_string())])),
+            _ => sib.push(X::leaf("ellipse", &[("id", "t"), ("cxy", &format!("{} {}", h(rng, -10, 20), h(rng, -10, 20))), ("rxy", &format!("{} {}", 2 + rng.below(6), 1 + rng.below(4)))])),
+        }
+        let mut ua: Vec<(String, String)> = vec![("id".into(), "u".into()), ("href".into(), "#t".into())];
+        if rng.chance(3, 4) { ua.push(("x".into(), h(rng, -40, 40))); }
+        if rng.chance(3, 4) { ua.push(("y".into(), h(rng, -40, 40))); }
+        sib.push(X::El { name: "use".into(), attrs: ua, kids: None });
+        let mut last = "u";
+        if rng.chance(1, 3) { sib.push(X::leaf("use", &[("id", "v"), ("href", "#u"), ("x", &h(rng, -20, 20))])); last = "v"; }
+        let spec = |rng: &mut Rng, id: &str| -> String { format!("#{id}{}", rng.pick(&["|h 4", "|v 2", "@br 1 1", "|H", "@c", "|V 3", "@tl"])) };
+        sib.push(X::leaf("rect", &[("id", "r"), ("xy", &spec(rng, last)), ("wh", "6 4")]));
+        if rng.chance(1, 2) { sib.push(X::leaf("line", &[("id", "k"), ("start", &format!("#{last}")), ("end", "#r")])); }
+        if rng.chance(1, 3) { sib.push(X::leaf("rect", &[("id", "w"), ("xy", "60 60"), ("wh", &format!("#{last}"))])); }
+        let k = sib.len();
+        let mut order: Vec<usize> = (0..k).collect();
+        shuffle(rng, &mut order);
+        let doc: Vec<X> = order.iter().map(|&i| sib[i].clone()).collect();
+        let xml = doc_xml(&doc);
+        corr.case(&xml, true, || json!({"document": xml}));
+        let imp = run_impl(&xml, lim);
+        let mdl = run_model(drv, &doc, lim)?;
+        corr.tally(&format!("impl={}", imp.status));
+        if mdl.outside { corr.skipped += 1; } else {
+            match agree(&imp, &mdl) {
+                Ok(()) => corr.exact += 1,
+                Err(what) => rep.violation(Violation { kind: "correspondence", stream: corr.name.clone(), signature: "use-order".into(), what, replay: json!({"input": xml}), confirmed_on_impl: false }),
+            }
+        }
+        orc.case(&xml, true, || json!({"siblings": sib.iter().map(|x| { let mut s = String::new(); x.xml(&mut s); s }).collect::<Vec<_>>()}));
+        let mut base: Option<(String, BTreeMap<String, String>)> = None;
+        let mut bad = None;
+        for o in all_perms(k).into_iter().take(120) {
+            let d: Vec<X> = o.iter().map(|&i| sib[i].clone()).collect();
+            let x = doc_xml(&d);
+            let r = run_impl(&x, lim);
+            if r.status != "ok" {
+                bad = Some((format!("a satisfiable document fails in this order of its siblings: {}", r.status), json!({"input": x})));
+                break;
+            }
+            let m = by_id(&r.events);
+            match &base {
+                None => base = Some((x, m)),
+                Some((x0, m0)) => if *m0 != m {
+                    let id = m0.keys().find(|k| m0.get(*k) != m.get(*k)).cloned().unwrap_or_default();
+                    bad = Some((format!("#{id} differs between two orders of the same siblings: {:?} vs {:?}", m0.get(&id), m.get(&id)), json!({"input": x, "input_other_order": x0})));
+                    break;
+                }
+            }
+        }
+        match bad {
+            None => orc.exact += 1,
+            Some((what, replay)) => rep.violation(Violation { kind: "oracle", stream: orc.name.clone(), signature: "C10:order-dependent".into(), what, replay, confirmed_on_impl: true }),
+        }
+    }
+    rep.streams.push(corr);
+    rep.streams.push(orc);
+    Ok(())
+}
+
 /// containment (`surround` / `inside`) of targets whose box is only known late: a polyline / polygon /
 /// path whose points are themselves references, registered as soon as it is read but without a box
 /// until those references resolve. Every order of the siblings must succeed with the same geometry.
@@ -728,5 +807,6 @@ pub fn run(rep: &mut Report, tier: &str, seed: u64) -> Result<(), String> {
     stream_unsat(rep, &mut drv, &mut rng.fork(), u)?;
     stream_clip(rep, &mut drv, &mut rng.fork(), u / 2)?;
     stream_contain(rep, &mut drv, &mut rng.fork(), u / 2)?;
+    stream_use(rep, &mut drv, &mut rng.fork(), u / 2)?;
     Ok(())
 }
